@@ -458,69 +458,145 @@ EMAIL_PATTERN = r"[^@]+@[^\.]+\..+"
 
 
 class Xsd:
-    """translates the subset of XSD used by the two shipped schemas into the Coq `schema` value of Model/Schema.v"""
+    """translates the subset of XSD used by the two shipped schemas into the Coq `schema` value of Model/SchemaDef.v.
+    QNames are resolved through the prefix declarations of the document (the shipped files use the XML Schema
+    namespace as the default namespace); named simple / complex types are inlined; types of another target
+    namespace are looked up in the schema documents passed as `imports` (keyed by namespace -- the same resolution
+    xsd/ASCMHLDirectory__combined.xsd performs, instead of the https schemaLocation of the import element)."""
 
-    def __init__(self, path, item):
+    XSNS = "http://www.w3.org/2001/XMLSchema"
+    MAX_OCCURS = 64
+
+    def __init__(self, path, item, imports=()):
         self.item = item
+        self.nsmap = {}
         try:
-            self.root = ET.parse(path).getroot()
+            root = None
+            for ev, x in ET.iterparse(path, events=("start", "start-ns")):
+                if ev == "start-ns":
+                    # the shipped files declare every prefix on the root element; a re-declaration is refused
+                    if x[0] in self.nsmap and self.nsmap[x[0]] != x[1]:
+                        fail(item, f"prefix {x[0]!r} is bound twice")
+                    self.nsmap[x[0]] = x[1]
+                elif root is None:
+                    root = x
+            self.root = root
+        except TranslateError:
+            raise
         except Exception as e:  # noqa
             fail(item, f"cannot parse {path}: {e}")
-        if self.root.tag != XS + "schema":
+        if self.root is None or self.root.tag != XS + "schema":
             fail(item, "root element is not xs:schema")
         self.tns = self.root.attrib.get("targetNamespace", "")
-        self.types = {}
+        if self.root.attrib.get("elementFormDefault") != "qualified":
+            fail(item, "elementFormDefault is not 'qualified' (the model gives every element the target namespace)")
+        if self.root.attrib.get("attributeFormDefault", "unqualified") != "unqualified":
+            fail(item, "attributeFormDefault is not 'unqualified'")
+        self.ctypes, self.stypes = {}, {}
         for ct in self.root.findall(XS + "complexType"):
-            self.types[ct.attrib["name"]] = ct
+            self.ctypes[ct.attrib["name"]] = ct
+        for st in self.root.findall(XS + "simpleType"):
+            self.stypes[st.attrib["name"]] = st
+        self.imports = {}
+        for imp in self.root.findall(XS + "import"):
+            ns = imp.attrib.get("namespace")
+            hit = [x for x in imports if x.tns == ns]
+            if len(hit) != 1:
+                fail(item, f"import of namespace {ns!r} cannot be resolved among the shipped schemas")
+            self.imports[ns] = hit[0]
+        self.depth = 0
 
-    def local(self, qname):
-        return qname.split(":")[-1]
+    # ---- names
+    def qname(self, q):
+        """-> (namespace, local)"""
+        if ":" in q:
+            pre, loc = q.split(":", 1)
+        else:
+            pre, loc = "", q
+        if pre not in self.nsmap:
+            fail(self.item, f"undeclared prefix in QName {q!r}")
+        return self.nsmap[pre], loc
+
+    def owner(self, ns):
+        if ns == self.tns:
+            return self
+        if ns in self.imports:
+            return self.imports[ns]
+        fail(self.item, f"type of namespace {ns!r}: no such schema imported")
 
     def occurs(self, el):
         mn = int(el.attrib.get("minOccurs", "1"))
         mx = el.attrib.get("maxOccurs", "1")
+        if mn > self.MAX_OCCURS or (mx != "unbounded" and int(mx) > self.MAX_OCCURS):
+            fail(self.item, f"occurrence bound above {self.MAX_OCCURS} (bounds are unary numbers in the model)")
+        if mx != "unbounded" and int(mx) < mn:
+            fail(self.item, "maxOccurs < minOccurs")
         return mn, ("None" if mx == "unbounded" else f"(Some {int(mx)})")
 
+    # ---- simple types
+    BUILTIN = {"string": "SString", "dateTime": "SDateTime", "integer": "SInteger", "anyType": "SAny", "anySimpleType": "SAny"}
+
     def simple(self, tname):
-        t = self.local(tname)
-        table = {"string": "SString", "dateTime": "SDateTime", "integer": "SInteger", "anyType": "SAny"}
-        if t in table and tname.startswith("xs:"):
-            return table[t]
-        fail(self.item, f"simple type {tname} not supported")
+        """QName of a simple type -> Coq `stype`"""
+        ns, loc = self.qname(tname)
+        if ns == self.XSNS:
+            if loc in self.BUILTIN:
+                return self.BUILTIN[loc]
+            fail(self.item, f"built-in simple type {tname} not supported")
+        o = self.owner(ns)
+        if loc in o.stypes:
+            return o.restriction(o.stypes[loc])
+        fail(self.item, f"simple type {tname} not found")
+
+    def is_simple(self, tname):
+        ns, loc = self.qname(tname)
+        if ns == self.XSNS:
+            return loc != "anyType"
+        return loc in self.owner(ns).stypes
 
     def attr(self, a):
         name = a.attrib.get("name")
         if name is None:
-            fail(self.item, "attribute without name")
+            fail(self.item, "attribute without name (ref) not supported")
+        extra = set(a.attrib) - {"name", "use", "fixed", "type"}
+        if extra:
+            fail(self.item, f"attribute {name}: {sorted(extra)} not supported")
         use = a.attrib.get("use", "optional")
+        if use not in ("optional", "required"):
+            fail(self.item, f"attribute {name}: use={use!r} not supported")
         fixed = a.attrib.get("fixed")
         if "type" in a.attrib:
             ty = self.simple(a.attrib["type"])
         else:
             st = a.find(XS + "simpleType")
-            if st is None:
-                ty = "SString"
-            else:
-                ty = self.restriction(st)
+            ty = "SAny" if st is None else self.restriction(st)
         if fixed is not None:
+            if ty != "SAny":
+                fail(self.item, f"attribute {name}: fixed value on a typed attribute not supported")
             ty = f"(SFixed {coq_text(fixed)})"
         return f"(mkAttr {coq_text(name)} {'true' if use == 'required' else 'false'} {ty})"
 
     def restriction(self, st):
         r = st.find(XS + "restriction")
-        if r is None:
-            fail(self.item, "simpleType without restriction")
+        if r is None or len(list(st)) != len([c for c in st if c.tag in (XS + "restriction", XS + "annotation")]):
+            fail(self.item, "simpleType other than a restriction")
+        bns, bloc = self.qname(r.attrib.get("base", ""))
+        if (bns, bloc) != (self.XSNS, "string"):
+            fail(self.item, f"restriction of {r.attrib.get('base')!r} (only string) not supported")
         enums = [e.attrib["value"] for e in r.findall(XS + "enumeration")]
         pats = [e.attrib["value"] for e in r.findall(XS + "pattern")]
-        others = [c.tag for c in r if c.tag not in (XS + "enumeration", XS + "pattern")]
+        others = [c.tag for c in r if c.tag not in (XS + "enumeration", XS + "pattern", XS + "annotation")]
         if others:
             fail(self.item, f"facets {others} not supported")
+        if not enums and not pats:
+            return "SString"
         if enums and not pats:
             return f"(SEnum {coq_text_list(enums)})"
         if pats == [EMAIL_PATTERN] and not enums:
             return "SEmail"
         fail(self.item, f"restriction with enums={enums} patterns={pats} not supported")
 
+    # ---- particles
     def particle(self, p):
         tag = p.tag
         mn, mx = self.occurs(p)
@@ -528,6 +604,9 @@ class Xsd:
             name = p.attrib.get("name")
             if name is None:
                 fail(self.item, "element ref not supported")
+            extra = set(p.attrib) - {"name", "type", "minOccurs", "maxOccurs"}
+            if extra:
+                fail(self.item, f"element {name}: {sorted(extra)} not supported")
             body = f"(PElem {coq_text(name)} {self.element_type(p)})"
         elif tag in (XS + "sequence", XS + "choice"):
             kids = [self.particle(c) for c in p if c.tag in (XS + "element", XS + "sequence", XS + "choice")]
@@ -541,32 +620,49 @@ class Xsd:
 
     def complex_type(self, ct):
         """-> Coq `etype`"""
+        self.depth += 1
+        if self.depth > 40:
+            fail(self.item, "recursive type definitions are not supported (named types are inlined)")
+        try:
+            return self._complex_type(ct)
+        finally:
+            self.depth -= 1
+
+    def _complex_type(self, ct):
+        extra = set(ct.attrib) - {"name"}
+        if extra:
+            fail(self.item, f"complexType attributes {sorted(extra)} (mixed, abstract, ...) not supported")
         attrs = [self.attr(a) for a in ct.findall(XS + "attribute")]
         sc = ct.find(XS + "simpleContent")
         cc = ct.find(XS + "complexContent")
+        known = {XS + "sequence", XS + "choice", XS + "attribute", XS + "annotation", XS + "simpleContent", XS + "complexContent"}
+        unknown = [c.tag for c in ct if c.tag not in known]
+        if unknown:
+            fail(self.item, f"complexType children {unknown} not supported")
         if sc is not None:
             ext = sc.find(XS + "extension")
-            if ext is None:
-                fail(self.item, "simpleContent without extension")
+            if ext is None or [c.tag for c in ext if c.tag not in (XS + "attribute", XS + "annotation")]:
+                fail(self.item, "simpleContent other than an extension by attributes")
             attrs += [self.attr(a) for a in ext.findall(XS + "attribute")]
             base = ext.attrib["base"]
-            if base.startswith("xs:"):
+            if self.is_simple(base):
                 return f"(TSimple {self.simple(base)} [{'; '.join(attrs)}])"
             # extension of a named complex type with simple content
-            inner = self.types.get(self.local(base))
+            ns, loc = self.qname(base)
+            o = self.owner(ns)
+            inner = o.ctypes.get(loc)
             if inner is None:
                 fail(self.item, f"unknown base type {base}")
-            return self.merge_attrs(self.complex_type(inner), attrs)
+            return self.merge_attrs(o.complex_type(inner), attrs)
         if cc is not None:
             ext = cc.find(XS + "extension")
-            if ext is None or ext.attrib.get("base") != "xs:anyType":
+            if ext is None or self.qname(ext.attrib.get("base", "")) != (self.XSNS, "anyType"):
                 fail(self.item, "complexContent other than extension of xs:anyType not supported")
+            if [c.tag for c in ext if c.tag not in (XS + "attribute", XS + "annotation")]:
+                fail(self.item, "complexContent extension with a content model not supported")
             attrs += [self.attr(a) for a in ext.findall(XS + "attribute")]
             return f"(TAny [{'; '.join(attrs)}])"
         groups = [c for c in ct if c.tag in (XS + "sequence", XS + "choice")]
-        unknown = [c.tag for c in ct if c.tag not in (XS + "sequence", XS + "choice", XS + "attribute", XS + "annotation")]
-        if unknown:
-            fail(self.item, f"complexType children {unknown} not supported")
         if len(groups) > 1:
             fail(self.item, "more than one model group")
         body = self.particle(groups[0]) if groups else "(POccurs 1 (Some 1) (PSeq []))"
@@ -585,12 +681,16 @@ class Xsd:
     def element_type(self, el):
         if "type" in el.attrib:
             t = el.attrib["type"]
-            if t.startswith("xs:"):
+            ns, loc = self.qname(t)
+            if (ns, loc) == (self.XSNS, "anyType"):
+                return "(TAny [])"
+            if self.is_simple(t):
                 return f"(TSimple {self.simple(t)} [])"
-            ct = self.types.get(self.local(t))
+            o = self.owner(ns)
+            ct = o.ctypes.get(loc)
             if ct is None:
                 fail(self.item, f"unknown type {t}")
-            return self.complex_type(ct)
+            return o.complex_type(ct)
         ct = el.find(XS + "complexType")
         if ct is not None:
             return self.complex_type(ct)
@@ -603,7 +703,7 @@ class Xsd:
         els = self.root.findall(XS + "element")
         if len(els) != 1:
             fail(self.item, f"exactly one global element expected, found {len(els)}")
-        known = {XS + "element", XS + "complexType", XS + "annotation", XS + "import"}
+        known = {XS + "element", XS + "complexType", XS + "simpleType", XS + "annotation", XS + "import"}
         unknown = [c.tag for c in self.root if c.tag not in known]
         if unknown:
             fail(self.item, f"top-level components {unknown} not supported")
@@ -612,14 +712,25 @@ class Xsd:
 
 
 def gen_xsd(repo, out):
-    x = Xsd(os.path.join(repo, "xsd/ASCMHL.xsd"), "xsd/ASCMHL.xsd")
-    name, ety = x.top()
-    out.text("schema_manifest_ns", x.tns, "xsd/ASCMHL.xsd targetNamespace")
+    man = Xsd(os.path.join(repo, "xsd/ASCMHL.xsd"), "xsd/ASCMHL.xsd")
+    name, ety = man.top()
+    out.text("schema_manifest_ns", man.tns, "xsd/ASCMHL.xsd targetNamespace")
     out.raw(f"Definition schema_manifest : schema := mkSchema {coq_text(name)} {ety}.")
-    x = Xsd(os.path.join(repo, "xsd/ASCMHLDirectory.xsd"), "xsd/ASCMHLDirectory.xsd")
+    out.summary["schema_manifest"] = name
+    # the combined schema is what a validator is given for chain files: it must import exactly the two documents
+    try:
+        comb = ET.parse(os.path.join(repo, "xsd/ASCMHLDirectory__combined.xsd")).getroot()
+    except Exception as e:  # noqa
+        fail("xsd/ASCMHLDirectory__combined.xsd", f"cannot parse: {e}")
+    got = sorted((c.tag, c.attrib.get("namespace"), c.attrib.get("schemaLocation")) for c in comb)
+    want = sorted([(XS + "import", "urn:ASC:MHL:v2.0", "ASCMHL.xsd"), (XS + "import", "urn:ASC:MHL:DIRECTORY:v2.0", "ASCMHLDirectory.xsd")])
+    if comb.tag != XS + "schema" or got != want:
+        fail("xsd/ASCMHLDirectory__combined.xsd", f"expected exactly the two imports, found {got}")
+    x = Xsd(os.path.join(repo, "xsd/ASCMHLDirectory.xsd"), "xsd/ASCMHLDirectory.xsd", imports=(man,))
     name, ety = x.top()
     out.text("schema_directory_ns", x.tns, "xsd/ASCMHLDirectory.xsd targetNamespace")
     out.raw(f"Definition schema_directory : schema := mkSchema {coq_text(name)} {ety}.")
+    out.summary["schema_directory"] = name
 
 
 # --------------------------------------------------------------------------------------------------- main
@@ -641,10 +752,12 @@ def generate(repo):
     gen_history(repo, out)
     gen_commands(repo, out)
     gen_cli(repo, out)
+    header = HEADER
     if os.environ.get("VERIF_GEN_XSD", "0") == "1":
         gen_xsd(repo, out)
+        header += "From MHL Require Import Model.SchemaDef.\n"
     warn = "".join(comment("SHAPE-WARNING " + w) + "\n" for w in WARNINGS)
-    return HEADER + "\n".join(out.lines) + "\n" + warn, out.summary
+    return header + "\n".join(out.lines) + "\n" + warn, out.summary
 
 
 def main(argv):
